@@ -397,4 +397,9 @@ def run(rep, db, tier, seed):
     handle(f'ValidatorAddrsWatch::update, long batch of {LB} with one bad entry at every position', check_long_batch, LB)
     handle('ValidatorAddrsWatch::update with an interfering writer', check_watch_interference, N)
     handle('commutation of two valid announcements', check_commute, N)
+    try:
+        from props import c18_push
+        c18_push.run(rep, db, tier)
+    except Exception as u:
+        rep.add(Obligation('push_validator_addrs handler', 'inconclusive', f'{type(u).__name__}: {u}'[:600]))
     rep.extra['explanation'] = 'one batch applied to an arbitrary authentic address book on the real MIR; all versions, timestamps and signature validities covered by solver verdicts'
